@@ -27,7 +27,7 @@ func tupleIn(vals []driver.Value, width int, tuple []interface{}) bool {
 	return false
 }
 
-var c11Shapes = []string{"has-many-int", "has-many-int-pointers", "composite-int", "composite-int-single", "composite-string-3-1", "composite-string-1-3", "composite-string-nil", "belongs-to", "has-one", "duplicate-parent", "join-nested-preload", "composite-string-backslash", "belongs-to-string-nil", "join-self-nested", "join-self-nested-single", "preload-args-reused", "many2many", "many2many-pointers", "soft-deleted-children", "soft-deleted-children-unscoped"}
+var c11Shapes = []string{"has-many-int", "has-many-int-pointers", "composite-int", "composite-int-single", "composite-string-3-1", "composite-string-1-3", "composite-string-nil", "belongs-to", "has-one", "duplicate-parent", "join-nested-preload", "composite-string-backslash", "belongs-to-string-nil", "join-self-nested", "join-self-nested-single", "preload-args-reused", "many2many", "many2many-pointers", "soft-deleted-children", "soft-deleted-children-unscoped", "many2many-duplicate-parents"}
 
 func N_C11_Preload(tier int) int { return len(c11Shapes) }
 
@@ -432,6 +432,58 @@ func H_C11_Preload(shape int) {
 			verifrt.Assert(db.Preload("Langs").Find(&sp).Error == nil, "C11.error")
 			verifrt.Assert(len(sp) == 2, "C11.parents")
 			check([]*Speaker{&sp[0], &sp[1]})
+		}
+	case "many2many-duplicate-parents":
+		// the parent result holds speaker 1 several times (as a join with another table
+		// produces), then speakers 2 and 3; four join rows with symbolic owners
+		dup := verifrt.Concretize(verifrt.Intn("dup", 1, 4), 1, 4)
+		jo := []int64{int64(verifrt.Intn("j1o", 1, 3)), int64(verifrt.Intn("j2o", 1, 3)), int64(verifrt.Intn("j3o", 1, 3)), int64(verifrt.Intn("j4o", 1, 3))}
+		jl := []int64{1, 2, 1, 2}
+		verifrt.Assume(verifrt.And(jo[0] != jo[2], jo[1] != jo[3]))
+		s.OnQuery = func(text string, args []driver.Value) RowSet {
+			switch {
+			case hasPrefix(text, "SELECT * FROM `speakers`"):
+				rs := RowSet{Cols: []string{"id", "name"}}
+				for i := 0; i < dup; i++ {
+					rs.Rows = append(rs.Rows, []driver.Value{int64(1), "s1"})
+				}
+				rs.Rows = append(rs.Rows, []driver.Value{int64(2), "s2"}, []driver.Value{int64(3), "s3"})
+				return rs
+			case hasPrefix(text, "SELECT * FROM `speaker_langs`"):
+				rs := RowSet{Cols: []string{"speakerid", "langid"}}
+				for i := range jo {
+					if tupleIn(args, 1, []interface{}{jo[i]}) {
+						rs.Rows = append(rs.Rows, []driver.Value{jo[i], jl[i]})
+					}
+				}
+				return rs
+			}
+			rs := RowSet{Cols: []string{"id", "name"}}
+			for _, l := range []int64{1, 2} {
+				if tupleIn(args, 1, []interface{}{l}) {
+					rs.Rows = append(rs.Rows, []driver.Value{l, "l"})
+				}
+			}
+			return rs
+		}
+		var sp []Speaker
+		verifrt.Assert(db.Preload("Langs").Find(&sp).Error == nil, "C11.error")
+		verifrt.Assert(len(sp) == dup+2, "C11.parents")
+		for _, x := range sp {
+			for _, l := range []int64{1, 2} {
+				want, got := 0, 0
+				for i := range jo {
+					if jo[i] == int64(x.ID) && jl[i] == l {
+						want++
+					}
+				}
+				for _, g := range x.Langs {
+					if int64(g.ID) == l {
+						got++
+					}
+				}
+				verifrt.Assert(got == want, "C11.wrong-child")
+			}
 		}
 	case "soft-deleted-children", "soft-deleted-children-unscoped":
 		// two binders (symbolic ids), three sheets with symbolic binder and symbolic deleted flag;
